@@ -23,30 +23,73 @@ ORACLE_OWNER = {
     "continued_before_dep_finished": "C04", "result_is_actual": "C04", "result_target": "C04",
     "result_count": "C04", "run_result_is_root": "C04", "cyclic_results_uniform": "C04",
     "terminates": "C05", "cyclic_build_fails": "C05", "cycle_reported": "C05", "no_false_cycle": "C05",
+    "cycle_reported_first": "C05",
     "executing_le_limit": "C09", "slots_conserved": "C09", "harness_counter": "C09",
 }
 
 
-def run_harness(ctx, prop, nrand, repeat, stress, timeout_ms=10000):
+CTL_FILE = os.path.join(HARNESS, "overlay/runner/zz_verif_c05_ctl_test.go")
+
+
+def parse_out(out):
+    """Records written by the Go harness: one JSON line per run, ORACLE and ABORTED lines.  If the harness process gave up on a
+    run that its in-run watchdog could not end (<out>.stuck, written by vprocessWatchdog), that run is added as a hung run with a
+    `terminates` oracle failure, so that the hang is attributed to its graph / limit / schedule profile."""
+    runs, oracles, aborted = [], [], None
+    if os.path.exists(out):
+        for line in open(out):
+            line = line.rstrip("\n")
+            if line.startswith("{"):
+                try:
+                    runs.append(json.loads(line))
+                except ValueError:
+                    pass  # truncated last line of a process that was stopped
+            elif line.startswith("ORACLE\t"):
+                f = line.split("\t")
+                if len(f) >= 4:
+                    oracles.append({"oracle": f[1], "run": int(f[2]), "detail": f[3]})
+            elif line.startswith("ABORTED\t"):
+                aborted = int(line.split("\t")[1])
+    if os.path.exists(out + ".stuck"):
+        st = json.load(open(out + ".stuck"))
+        r = {"run": st["run"], "graph": st["graph"], "n": st["n"], "k": st["k"], "root": st["root"], "deps": st["deps"],
+             "unknown": [], "failing": [], "cyclic": None, "profile": st["profile"], "procs": st["procs"], "via_run": st["via_run"],
+             "hung": True, "stuck": False, "run_result": "", "capacity_end": -1, "max_inside": 0, "events": [],
+             "blocked": st.get("blocked"), "seed": str(st.get("seed")), "obs": {"order": []}}
+        runs = [x for x in runs if x["run"] != r["run"]] + [r]
+        oracles.append({"oracle": "terminates", "run": r["run"],
+                        "detail": "the harness process could not end the run of graph %s (limit %d, profile %s) within %d ms (even its own "
+                                  "watchdog was stuck); goroutines: %s"
+                                  % (st["graph"], st["k"], st["profile"], st["waited_ms"], "; ".join(st.get("blocked") or []))})
+        aborted = r["run"]
+    return runs, oracles, aborted
+
+
+def run_harness(ctx, prop, nrand, repeat, stress, timeout_ms=10000, extra_files=None):
     """Run the Go harness against /repo's working tree. Returns (ok, runs, oracles, aborted, output)."""
     out = os.path.join(ctx.tmp, "%s_runner.jsonl" % prop.lower())
     seed = ctx.seed * 100 + int(prop[1:])
     env = {"VERIF_OUT": out, "VERIF_SEED": str(seed), "VERIF_RUNS": str(nrand), "VERIF_REPEAT": str(repeat), "VERIF_STRESS": str(stress),
            "VERIF_TIMEOUT_MS": str(timeout_ms)}
-    rc, o = ctx.go_overlay_test("runner", {"zz_verif_c04c05c09_test.go": HARNESS_FILE}, "^TestVerifRunner$", env,
-                                timeout=1500)
-    if rc != 0 or not os.path.exists(out):
+    files = {"zz_verif_c04c05c09_test.go": HARNESS_FILE}
+    files.update(extra_files or {})
+    rc, o = ctx.go_overlay_test("runner", files, "^TestVerifRunner$", env, timeout=1500)
+    if (rc != 0 and not os.path.exists(out + ".stuck")) or not os.path.exists(out):
         return False, [], [], None, o
-    runs, oracles, aborted = [], [], None
-    for line in open(out):
-        line = line.rstrip("\n")
-        if line.startswith("{"):
-            runs.append(json.loads(line))
-        elif line.startswith("ORACLE\t"):
-            f = line.split("\t")
-            oracles.append({"oracle": f[1], "run": int(f[2]), "detail": f[3]})
-        elif line.startswith("ABORTED\t"):
-            aborted = int(line.split("\t")[1])
+    runs, oracles, aborted = parse_out(out)
+    return True, runs, oracles, aborted, o
+
+
+def run_controlled(ctx, prop, repeat, nrand):
+    """The controlled-scheduler runs (zz_verif_c05_ctl_test.go), in their own process. Same return value as run_harness."""
+    out = os.path.join(ctx.tmp, "%s_runner_ctl.jsonl" % prop.lower())
+    seed = ctx.seed * 100 + int(prop[1:])
+    env = {"VERIF_CTL_OUT": out, "VERIF_SEED": str(seed), "VERIF_CTL_REPEAT": str(repeat), "VERIF_CTL_RANDOM": str(nrand)}
+    files = {"zz_verif_c04c05c09_test.go": HARNESS_FILE, "zz_verif_c05_ctl_test.go": CTL_FILE}
+    rc, o = ctx.go_overlay_test("runner", files, "^TestVerifC05Ctl$", env, timeout=900)
+    if (rc != 0 and not os.path.exists(out + ".stuck")) or not os.path.exists(out):
+        return False, [], [], None, o
+    runs, oracles, aborted = parse_out(out)
     return True, runs, oracles, aborted, o
 
 
@@ -86,8 +129,13 @@ def render_events(r):
     b = lambda x: "true" if x else "false"
     held = None
     pair = {"publish.pre": "publish.post", "walk.pre": "walk.load", "clear.pre": "clear.post"}
+    # controlled runs: one goroutine at a time on one processor, the log order is the execution order; a goroutine is parked at
+    # a .pre hook like at any other, so other goroutines' events may follow it before its operation is done and logged (.post)
+    controlled = bool(r.get("controlled"))
     for i, e in enumerate(evs):
         g, p, a = e[0], e[1], e[2:]
+        if controlled and p in pair:
+            continue
         if held is not None:
             if (g, p) != held:
                 return out, "event %d: %s by another goroutine inside a %s bracket" % (i, p, held[1])
@@ -189,19 +237,53 @@ def accept_traces(ctx, runs):
 
 
 def describe(r):
-    return {"graph": r["graph"], "root": r["root"], "deps": {str(i): d for i, d in enumerate(r["deps"]) if d},
-            "unknown": r["unknown"], "failing": r["failing"], "limit": r["k"], "profile": r["profile"],
-            "gomaxprocs": r["procs"], "via_Run": r["via_run"], "run_result": r["run_result"],
-            "observations": r["obs"]}
+    d = {"graph": r["graph"], "root": r["root"], "deps": {str(i): d for i, d in enumerate(r["deps"]) if d},
+         "unknown": r["unknown"], "failing": r["failing"], "limit": r["k"], "profile": r["profile"],
+         "gomaxprocs": r["procs"], "via_Run": r["via_run"], "run_result": r["run_result"],
+         "observations": r["obs"]}
+    if r.get("controlled"):
+        d["scheduler"] = "controlled, policy %s, seed %s (one goroutine released at a time at the hook points)" % (r["controlled"], r.get("seed"))
+        d["schedule_released_label_at_hook"] = r.get("schedule")
+    if r.get("verdict"):
+        d["verdict"] = r["verdict"]
+    if r.get("blocked"):
+        d["goroutines_when_given_up"] = r["blocked"]
+    if r.get("log_mutex_held"):
+        d["note"] = ("free-running mode: a goroutine blocked between a .pre hook and its .post hook while owning the harness's log "
+                     "mutex, so part of this hang is the instrumentation's; the controlled scheduler (no lock held across runner "
+                     "code) decides whether the runner deadlocks by itself")
+    return d
 
 
-def run_check(ctx, prop, props_file, sizes, rule_extra):
-    """The common body of the three checks."""
+def run_check(ctx, prop, props_file, sizes, rule_extra, extra_files=None, more_runs=None):
+    """The common body of the three checks.  extra_files: further harness files of the runner package to build in;
+    more_runs: a function ctx -> (ok, runs, oracles, aborted, output) producing further runs (in a thread, at the same time
+    as the main harness); they are treated like the main harness's (oracles, trace acceptance)."""
     ok, rep = ctx.coq_props(props_file, timeout=1500)
     proof_broken = not ok
 
     nrand, repeat, stress = sizes["quick"] if ctx.quick() else sizes["thorough"]
-    okh, runs, oracles, aborted, o = run_harness(ctx, prop, nrand, repeat, stress)
+    more = {}
+    th = None
+    if more_runs is not None:
+        import threading
+
+        def _bg():
+            try:
+                more["res"] = more_runs(ctx)
+            except Exception as e:  # noqa
+                more["res"] = (False, [], [], None, "more_runs raised %r" % (e,))
+        th = threading.Thread(target=_bg)
+        th.start()
+    okh, runs, oracles, aborted, o = run_harness(ctx, prop, nrand, repeat, stress, extra_files=extra_files)
+    if th is not None:
+        th.join()
+        ok2, runs2, oracles2, aborted2, o2 = more["res"]
+        if okh and not ok2:
+            okh, o = False, o2
+        elif okh:
+            runs, oracles = runs + runs2, oracles2 + oracles  # a controlled schedule is the better replay: report it first
+            aborted = aborted if aborted is not None else aborted2
     if not okh:
         ctx.log(o[-3000:])
         ctx.violation("runner harness failed to build or run against /repo",
@@ -210,13 +292,21 @@ def run_check(ctx, prop, props_file, sizes, rule_extra):
     byid = {r["run"]: r for r in runs}
     mine = [x for x in oracles if ORACLE_OWNER.get(x["oracle"]) == prop or x["oracle"] == "terminates"]
     others = [x for x in oracles if x not in mine]
-    for x in mine[:6]:
+    shown, per = [], {}
+    for x in mine:  # at most two reports per oracle, six in all
+        if per.get(x["oracle"], 0) < 2 and len(shown) < 6:
+            per[x["oracle"]] = per.get(x["oracle"], 0) + 1
+            shown.append(x)
+    for x in shown:
         r = byid.get(x["run"])
         rp = {"oracle": x["oracle"], "detail": x["detail"], "config": describe(r) if r else None,
               "how": "go test -tags verif -overlay (harness/overlay/runner/zz_verif_c04c05c09_test.go) ./runner; "
                      "VERIF_SEED=%d; schedule-dependent: the event log of the failing run follows" % (ctx.seed * 100 + int(prop[1:])),
               "event_log": r["events"][:400] if r else None}
-        ctx.violation("implementation violates %s oracle %s: %s" % (prop, x["oracle"], x["detail"]), rp)
+        # a free-running hang in which a goroutine is blocked while owning the harness's log mutex is partly the instrumentation's:
+        # it shows that the tree blocks where the unchanged code does not, but it is not by itself a schedule of the runner
+        ctx.violation("implementation violates %s oracle %s: %s" % (prop, x["oracle"], x["detail"]), rp,
+                      found_input=not (r and r.get("log_mutex_held")))
     if others:
         ctx.log("oracle failures owned by other runner properties: %s" % sorted({x["oracle"] for x in others}))
 
@@ -227,9 +317,10 @@ def run_check(ctx, prop, props_file, sizes, rule_extra):
                                                                   "log": rejected[:2]}, found_input=False)
         return
     done_runs = [r for r in runs if not (r["hung"] or r["stuck"])]
+    ctx.runner_runs = runs
     dist = {}
     for r in runs:
-        key = "%s/k=%d" % ("cyclic" if r["cyclic"] else "acyclic", r["k"])
+        key = "%s%s/k=%d" % ("controlled/" if r.get("controlled") else "", "cyclic" if r["cyclic"] else "acyclic", r["k"])
         dist[key] = dist.get(key, 0) + 1
     profs = {}
     for r in runs:
